@@ -14,7 +14,7 @@ inductive Seg where
   | halt (r : Res)         -- the scan stops with a value-independent outcome (too many unclosed / unknown key / panic)
 deriving DecidableEq, Repr
 
-/-- The scanner. Same control structure as `loop`, but it is given only
+/-- The scanner. Same control structure as `loopNC`, but it is given only
     `known : key → Bool` — no values — and produces segments instead of output. -/
 def segLoop (inp : Bytes) (known : Bytes → Bool) (unknownEmpty errUnknown : Bool) :
     (fuel i lwc uc : Nat) → List Seg
@@ -59,6 +59,54 @@ def render (env : Env) (m : Mode) : List Seg → Bytes → Res
       if valStr.isEmpty then
         if m.errEmpty then .emptyVal key else render env m rest (acc ++ m.empty)
       else render env m rest (acc ++ valStr)
+
+/-- The loop WITHOUT the remembered closing brace (`lastEnd`): every opener searches for its
+    closing brace anew. This is `replace` as it was before the close cache; `Lemmas.loop_eq_loopNC`
+    proves that the cache changes nothing, and the refinement to `segLoop` goes through it. -/
+def loopNC (inp : Bytes) (env : Env) (m : Mode) : (fuel i lwc uc : Nat) → (sb : Bytes) → Res
+  | 0, _, _, _, _ => .fuel
+  | fuel + 1, i, lwc, uc, sb =>
+  if i < inp.length then
+    if escAt inp i then
+      match slice inp lwc (i - 1) with
+      | none => .panic
+      | some s => loopNC inp env m fuel (i + 1) i uc (sb ++ s)
+    else if !openAt inp i then
+      loopNC inp env m fuel (i + 1) lwc uc sb
+    else if uc > 100 then
+      .tooMany
+    else
+      match findClose inp i with
+      | .unclosed => loopNC inp env m fuel (i + 1) lwc (uc + 1) sb
+      | .at e =>
+        match slice inp lwc i, slice inp (i + 1) e with
+        | some pre, some key =>
+          if (env key).isNone ∧ m.errUnknown then .unknown key
+          else if (env key).isNone ∧ !m.unknownEmpty then
+            loopNC inp env m fuel (i + 1) i uc (sb ++ pre)
+          else
+            match m.valStr key (env key) with
+            | none => .funcErr
+            | some valStr =>
+              if valStr.isEmpty then
+                if m.errEmpty then .emptyVal key
+                else loopNC inp env m fuel (e + 1) (e + 1) uc (sb ++ pre ++ m.empty)
+              else loopNC inp env m fuel (e + 1) (e + 1) uc (sb ++ pre ++ valStr)
+        | _, _ => .panic
+  else
+    match slice inp lwc inp.length with
+    | none => .panic
+    | some s => .ok (sb ++ s)
+
+/-- `replace` without the remembered closing brace (the function as it was before the close cache) -/
+def replaceNC (inp : Bytes) (env : Env) (m : Mode) : Res :=
+  if !inp.contains phOpen && !inp.contains phClose then .ok inp
+  else loopNC inp env m (inp.length + 1) 0 0 0 []
+
+/-- what the remembered closing brace must satisfy to be reused: it is what the search would
+    find from every index between the cursor and it -/
+def CacheOK (inp : Bytes) (i ce : Nat) : Prop :=
+  ∀ j, i ≤ j → j < ce → findClose inp j = .at ce
 
 def dom (env : Env) : Bytes → Bool := fun k => (env k).isSome
 
